@@ -64,6 +64,18 @@ T = {
  'c16-1': ('C16', 'a default-arity native method called with exactly max+1 arguments', 'native/Native::check_if_valid_call/post', ''),
  'c16-2': ('C16', 'a closure call at exactly 255 live frames', 'calls/Vm::call_closure/post', 'the original patch (== to >) no longer applies after fix ebf4d1a (D12, found while processing this wave); patch.diff is the same change rebased (>= to >), the original is kept as patch.before-fix-ebf4d1a.diff'),
  'c16-3': ('C16', 'class declared inside a function inheriting from a boxed non-class', 'calls/Vm::op_inherit/pre (to_obj / to_class preconditions)', 'missed by the first run (op_inherit not under contract); caught after it was added'),
+ # ---- fourth wave ------------------------------------------------------------------------------------------------------
+ 'c02-1': ('C02', 'a variable reached through two or more function levels and written after the inner closure was created (op_closure copies the parent capture into a fresh box)', 'ops/Vm::op_closure/invariant', 'first run UNDECIDED (exact-text rewrite of the Enclosing arm); caught after the capture / box rewrites were made generic'),
+ 'c02-2': ('C02', 'a captured local read by its declaring function while it holds nil', 'ops/Vm::op_get_box/post', 'first run UNDECIDED (exact-text rewrite of the comparison); caught after the rewrite took any VALUE_ constant'),
+ 'c02-3': ('C02', 'a write of -0 over 0 (or the reverse) through a capture', 'captures/Captures::set_capture_value/post', 'missed until the captures unit (captures.rs accessors) was built'),
+ 'c02-4': ('C02', 'a function with two or more parameters where a non-last one is captured (op_box boxes the stack top)', 'ops/Vm::op_box/post', 'first run UNDECIDED (one exact-text rewrite of three statements); caught after the rewrite was decomposed'),
+ 'c02-5': ('C02', 'a = ..; directly followed by a load of a different captured variable', 'peephole/peephole_optimize/pre (C12)', 'the C02 check does not see it (peephole is not part of the C02 claim); the C12 check does'),
+ 'c02-6': ('C02', 'a closure capturing a catch variable', None, 'Compiler::catch is outside reach: NOT decided'),
+ 'c04b-1': ('C04', 'an error is caught and the fiber later blocks on a channel (finish_unwind leaves the fiber Unwinding)', 'unwind/Fiber::finish_unwind/post', ''),
+ 'c04b-2': ('C04', 'an earlier catch clause does not match and a later one does', 'ops/Vm::op_check_handler/post', ''),
+ 'c04b-3': ('C04', 'an error leaves a native callback on a launched fiber (to_call_result reads the main fiber error)', 'hooks/Vm::to_call_result/post', 'first run UNDECIDED (model Vm had no main_fiber field) and then not reported (the function was tagged C16 only); caught after both were corrected'),
+ 'c04b-4': ('C04', 'return <expr> inside a try where evaluating <expr> raises', None, 'Compiler::return_ is outside reach: NOT decided'),
+ 'c04b-5': ('C04', 'an error offered to a non-matching try in a callee frame, then caught in a shallower frame (pause_unwind without skip)', 'unwind/Fiber::pause_unwind/assert', 'first run UNDECIDED (the rewrite knew only the skip+take and take+skip chains); caught after one-adaptor and no-adaptor chains were added'),
  'c16-4': ('C16', 'max(1, 7, "3"): a native whose declared parameter kind is weaker than what its body unwraps', None, 'the ~150 native bodies are not under contract (only the gate in front of them): NOT decided'),
 }
 for sid, (prop, needs, caught, note) in T.items():
